@@ -101,6 +101,14 @@ func hWalk(o Op) map[string]interface{} {
 	if err != nil {
 		return map[string]interface{}{"err": "snapshot: " + err.Error()}
 	}
+	if o.boolean("root_symlink") {
+		// the caller names the tree through a symlink (the last component of the root path is a link to the directory)
+		link := filepath.Join(dir, "rootlink")
+		if err := os.Symlink("root", link); err != nil {
+			return map[string]interface{}{"err": err.Error()}
+		}
+		root = link
+	}
 	fs, err := fsutil.NewFS(root)
 	if err != nil {
 		return map[string]interface{}{"err": "newfs: " + err.Error()}
